@@ -9,7 +9,7 @@
       templates of RenderOut.v, whose identifier tokens are audited below ([template_audit]): each is a
       keyword, a segment of an absolute `::core` path / a method or associated-item name reached through
       one, or reserved. *)
-From DX Require Import Syntax Tables Render GenBound GenAttrs IR GenType GenCmp GenImpl GenTop RenderOut LemDump LemClosed LemClosedGen.
+From DX Require Import Syntax Tables Render GenBound GenAttrs IR GenType GenCmp GenImpl GenTop RenderOut LemDump LemClosed LemClosedGen LemClosedHdr LemClosedHdrGen.
 
 Theorem C13_binders_reserved :
   forall prefix m, reserved prefix = true -> reserved (make_ident prefix m) = true.
@@ -123,6 +123,37 @@ Proof.
   split; [now apply Ok_body | now apply Ok_eq_checker].
 Qed.
 
+(** ** ... and so are the pieces of the header (LemClosedHdr.v, LemClosedHdrGen.v)
+
+    [generics_okS] / [ty_okS] / [bounds_okS]: a structural reading of "every identifier and lifetime inside is closed or
+    [user]" on the declared generics, the field types and every `bound(...)` the user wrote ([hattrs_bounds_okS],
+    [entry_okS]).  The header of every impl built from a struct - its impl generics (the declared ones, for operators and
+    the `Eq` assertion with `Self` expanded), the type applied to its own parameters, and the where-clause produced by the
+    nine-level rules - then consists of such pieces. *)
+Theorem C13_struct_header_pieces_come_from_the_item :
+  forall (user : tok -> Prop) s h fs e irs ir,
+    ok user (TI (s_name s)) -> generics_okS user (s_generics s) ->
+    ha_items h = [] -> hattrs_bounds_okS user h -> entry_okS user e -> Forall (fentry_hdr_okS user) fs ->
+    build_struct_entry s h fs e = Ok irs -> In ir irs ->
+    hdr_ok user (ir_hdr ir).
+Proof. exact struct_hdr_ok. Qed.
+
+(** every token of every impl derived from a struct is from the closed vocabulary or one the user wrote in the item *)
+Theorem C13_struct_impl_tokens :
+  forall (user : tok -> Prop) s h fs e irs ir,
+    ok user (TI (s_name s)) -> ok user (TI (unraw (s_name s))) -> generics_okS user (s_generics s) ->
+    ha_items h = [] -> hattrs_bounds_okS user h -> dattr_ok user h -> entry_okS user e ->
+    Forall (fentry_hdr_okS user) fs -> Forall (fentry_ok user) fs ->
+    build_struct_entry s h fs e = Ok irs -> In ir irs ->
+    TOk user (r_hdr (ir_hdr ir)) /\ TOk user (r_body (ir_hdr ir) (ir_body ir)) /\
+    match r_eq_checker (ir_hdr ir) (ir_body ir) with Some c => TOk user c | None => True end.
+Proof.
+  intros user s h fs e irs ir Hn Hu Hg Hi Hb Hd He Hfh Hf Hbuild Hin.
+  pose proof (struct_hdr_ok user s h fs e irs ir Hn Hg Hi Hb He Hfh Hbuild Hin) as Hh.
+  pose proof (struct_bodies_ok user s h fs e irs ir Hn Hu Hd Hf Hbuild Hin) as B.
+  split; [now apply Ok_hdr|]. split; [now apply Ok_body | now apply Ok_eq_checker].
+Qed.
+
 Definition user_name (s : string) : bool :=      (* the sentinel names of the skeletons below *)
   str_mem s ["U"; "u"; "V"; "w"].
 
@@ -201,3 +232,5 @@ Print Assumptions C13_no_foreign_token.
 Print Assumptions C13_struct_body_pieces_come_from_the_item.
 Print Assumptions C13_enum_body_pieces_come_from_the_item.
 Print Assumptions C13_struct_body_tokens.
+Print Assumptions C13_struct_header_pieces_come_from_the_item.
+Print Assumptions C13_struct_impl_tokens.
